@@ -29,7 +29,7 @@ type c32Case struct {
 	Hops     int   `json:"hops"`     // 0 native, 1, 2
 	Return   bool  `json:"return"`   // Hops>0: send the voucher back over the end it arrived on
 	Setup    []int `json:"setup"`    // kinds of the two setup links
-	Outcome  int   `json:"outcome"`  // 0 success, 1 receive disabled, 2 invalid receiver, 3 blocked receiver, 4 timeout by height (v1; time for v2), 5 timeout by time
+	Outcome  int   `json:"outcome"`  // 0 success, 1 receive disabled, 2 invalid receiver, 3 blocked receiver, 4 timeout by height (v1; time for v2), 5 timeout by time, 6 boundary race (receive in the block whose time == timeout, then timeout proven at exactly that height)
 	Via      int   `json:"via"`      // v2/alias: 0 MsgTransfer, 1 MsgSendPacket
 	Enc      int   `json:"enc"`      //
 	Denom    int   `json:"denom"`    // native denomination (pool index)
@@ -52,7 +52,7 @@ func genC32(t *rapid.T) c32Case {
 		Hops:     rapid.SampledFrom([]int{0, 1, 1, 2, 2}).Draw(t, "hops"),
 		Return:   rapid.Bool().Draw(t, "return"),
 		Setup:    []int{rapid.IntRange(0, 2).Draw(t, "setup1"), rapid.IntRange(0, 2).Draw(t, "setup2")},
-		Outcome:  rapid.SampledFrom([]int{0, 1, 2, 3, 4, 5, 1, 2, 3, 4, 5}).Draw(t, "outcome"),
+		Outcome:  rapid.SampledFrom([]int{0, 1, 2, 3, 4, 5, 1, 2, 3, 4, 5, 6, 6}).Draw(t, "outcome"),
 		Via:      rapid.IntRange(0, 1).Draw(t, "via"),
 		Enc:      rapid.IntRange(0, 2).Draw(t, "enc"),
 		Amt:      rapid.Int64Range(1, 4000).Draw(t, "amt"),
@@ -168,7 +168,7 @@ func runC32(outer *testing.T) func(t rapid.TB, c c32Case, rec *vx.Case) {
 		// ---- the transfer under test
 		dst := 1
 		li := routeIdx(spec, 0, 1, c.Link)
-		outcome := tokensim.Pick(6, c.Outcome)
+		outcome := tokensim.Pick(7, c.Outcome)
 		if outcome == 1 || (c.Disable && (outcome == 2 || outcome == 3)) {
 			step(tokensim.Op{K: "force", C: dst, On: false})
 		}
@@ -191,6 +191,8 @@ func runC32(outer *testing.T) func(t rapid.TB, c c32Case, rec *vx.Case) {
 			}
 		case 5:
 			op.TT = 20
+		case 6:
+			op.TT = 30 // on the 5 s block grid of the shared clock
 		}
 		send := step(op)
 		if !send.Sent {
@@ -281,6 +283,37 @@ func runC32(outer *testing.T) func(t rapid.TB, c c32Case, rec *vx.Case) {
 				by = "height"
 			}
 			rec.Class("timeout-by-%s/%s/%d-hop/%s", by, kindName, hops, zone)
+		case 6:
+			// boundary race: the receive lands in the destination block whose time equals the timeout,
+			// then the timeout is proven at exactly that block's height. Whatever the receive did, a
+			// committed timeout must restore the pre-send state; if the timeout is refused the
+			// transfer must complete as a success.
+			r := step(tokensim.Op{K: "erecv", P: pi, HD: 0, Pre: c.LateRecv, Sig: rel})
+			rec.Add("race_recv_in_block_with_time_eq_timeout", b2i(r.EdgeAligned))
+			to := step(tokensim.Op{K: "etimeout", P: pi, HD: 0, Sig: rel})
+			rec.Add("race_timeout_proven_at_exact_height", b2i(to.EdgeAligned))
+			switch {
+			case to.Effect == "refund":
+				terminalKind = "timeout"
+				rec.Class("boundary-race-timeout/%s/%d-hop/%s", kindName, hops, zone)
+			case r.Effect == "recv-ok":
+				a := step(tokensim.Op{K: "ack", P: pi, H: -1, Sig: rel})
+				if a.Effect != "ack-ok" {
+					rec.Class("race-ack-not-committed")
+					rec.Add("scenario_failed", 1)
+					return
+				}
+				if d := tokensim.BankDiff(a.Before[0], a.After[0]); len(d) > 0 {
+					vx.Violatef(t, rec, id, "success-ack-changed-sending-chain", "%s %d-hop %s: success acknowledgement changed balances on the sending chain: %v -- %s", kindName, hops, zone, d, a.Describe())
+					return
+				}
+				outcome, terminalKind = 0, "ack"
+				rec.Class("boundary-race-resolved-as-success/%s", kindName)
+			default:
+				rec.Class("boundary-race-unresolved")
+				rec.Add("scenario_failed", 1)
+				return
+			}
 		}
 		if outcome != 0 {
 			now := w.Banks()
@@ -337,7 +370,7 @@ func b2i(b bool) int64 {
 func TestC32(t *testing.T) {
 	vx.Check(t, vx.Prop[c32Case]{
 		ID: "C32",
-		Rule: "single transfers from chain 0 to chain 1 of a 3-chain world: link kind {v1, v2, alias} x denomination {native, 1-hop voucher, 2-hop voucher; vouchers either forwarded (escrowed) or returned over the end they arrived on (burned)} x outcome {success, receive disabled, invalid receiver, blocked receiver, timeout by height, timeout by time} x route {MsgTransfer, MsgSendPacket} x encoding x amount mode (exact / entire balance / half), followed by 1-3 further terminal messages (verbatim duplicate, fresh ack, fresh timeout, forged ack); " +
+		Rule: "single transfers from chain 0 to chain 1 of a 3-chain world: link kind {v1, v2, alias} x denomination {native, 1-hop voucher, 2-hop voucher; vouchers either forwarded (escrowed) or returned over the end they arrived on (burned)} x outcome {success, receive disabled, invalid receiver, blocked receiver, timeout by height, timeout by time, timeout-boundary race (receive delivered in the destination block whose time == timeout, then MsgTimeout proven at exactly that height)} x route {MsgTransfer, MsgSendPacket} x encoding x amount mode (exact / entire balance / half), followed by 1-3 further terminal messages (verbatim duplicate, fresh ack, fresh timeout, forged ack); " +
 			"non-trivial = a failure outcome on a voucher denomination that ran to completion; distinct by the whole case",
 		MinNTFrac:   0.35,
 		Assumptions: []string{assumeDenoms, "timeout-on-close is not reachable for transfer channels (user-initiated close is rejected by the transfer module) and is not enumerated"},
